@@ -10,6 +10,7 @@ import (
 	"os"
 	"os/exec"
 	"path/filepath"
+	"reflect"
 	"runtime"
 	"strings"
 	"sync"
@@ -445,6 +446,30 @@ func C19RaceBody(tier string) int {
 					}
 					c18FilterSeq(ar, []int{fbWith, fbQuery, fbExclusive, fbQuery})
 					c18FilterSeq(ar, []int{fbWithout, fbRegister, fbQuery, fbUnregister})
+				}
+			}
+			// first-time work done concurrently: component types never seen before in this process, of growing size, in
+			// different registration orders (process-wide caches keyed by type or size would be written here)
+			{
+				w := ecs.NewWorld(ecs.NewConfig().WithCapacityIncrement(1))
+				ids := []ecs.ID{}
+				for k := 1; k <= 24; k++ {
+					tp := reflect.ArrayOf(40*k+g, reflect.TypeOf(uint8(0)))
+					if g%2 == 1 {
+						tp = reflect.ArrayOf(k+3*g, reflect.TypeOf(&k))
+					}
+					id := ecs.TypeID(&w, tp)
+					ids = append(ids, id)
+					e := w.NewEntity(id)
+					if k > 1 {
+						w.Add(e, ids[k-2])
+						w.Remove(e, id)
+					}
+					if k%5 == 0 {
+						w.RemoveEntity(e)
+					}
+					ecs.ResourceTypeID(&w, tp)
+					atomic.AddInt64(&execs, 1)
 				}
 			}
 			// lock scenario body
